@@ -442,7 +442,7 @@ def drillhole_group_data(
         "groupValue": group_value,
         "multiselect": multiselect,
         "value": value,
-        "optional": optional,
+        "optional": False,
         "enabled": enabled,
         "tooltip": tooltip,
     }
